@@ -59,6 +59,26 @@ fn dump(logs: &[Vec<LogEv>], names: &[&str]) -> String {
     s
 }
 
+/// Messages of worker threads that panicked inside a crate call.
+pub static WORKER_PANICS: std::sync::Mutex<Vec<String>> = std::sync::Mutex::new(Vec::new());
+
+fn joined(h: std::thread::ScopedJoinHandle<'_, Vec<LogEv>>) -> Vec<LogEv> {
+    match h.join() {
+        Ok(l) => l,
+        Err(e) => {
+            let msg = if let Some(s) = e.downcast_ref::<&str>() {
+                s.to_string()
+            } else if let Some(s) = e.downcast_ref::<String>() {
+                s.clone()
+            } else {
+                "<non-string panic>".into()
+            };
+            WORKER_PANICS.lock().unwrap().push(msg);
+            vec![]
+        }
+    }
+}
+
 fn wall_limit() -> Duration {
     if cfg!(miri) {
         Duration::from_secs(3600)
@@ -191,7 +211,7 @@ pub fn wl_mutex<M: RawMutex + Send + Sync + 'static>(seed: u64, n: usize, rounds
             abort_all(&run);
         }
         for h in hs {
-            logs.push(h.join().unwrap_or_default());
+            logs.push(joined(h));
         }
     });
     st.absorb(&run, &logs);
@@ -343,7 +363,7 @@ pub fn wl_semaphore<M: RawMutex + Send + Sync + 'static>(seed: u64, n: usize, ro
             abort_all(&run);
         }
         for h in hs {
-            logs.push(h.join().unwrap_or_default());
+            logs.push(joined(h));
         }
     });
     st.absorb(&run, &logs);
@@ -376,16 +396,121 @@ pub fn wl_semaphore<M: RawMutex + Send + Sync + 'static>(seed: u64, n: usize, ro
 }
 
 // ------------------------------------------------------------------ mpmc (C08, C09, C10)
+/// Sender side of a channel flavour (borrowed channel reference or shared handle).
+pub trait TxOps: Send {
+    type SF: Future<Output = Result<(), futures_intrusive::channel::ChannelSendError<u64>>>;
+    fn send(&self, v: u64) -> Self::SF;
+    fn try_send(&self, v: u64) -> Result<(), TrySendError<u64>>;
+    fn cancel(f: Pin<&mut Self::SF>) -> Option<u64>;
+    /// The producer is done. `last` = it is the last producer (borrowed flavour closes explicitly;
+    /// the shared flavour closes by dropping the last sender handle).
+    fn finish(self, last: bool);
+}
+pub trait RxOps: Send {
+    type RF: Future<Output = Option<u64>>;
+    fn receive(&self) -> Self::RF;
+    fn try_receive(&self) -> Result<u64, TryReceiveError>;
+}
+
+pub struct BorrowedEnd<'a, M: RawMutex, A: RingBuf<Item = u64>>(&'a GenericChannel<M, u64, A>);
+impl<'a, M: RawMutex + Sync, A: RingBuf<Item = u64> + Send> TxOps for BorrowedEnd<'a, M, A> {
+    type SF = futures_intrusive::channel::ChannelSendFuture<'a, M, u64>;
+    fn send(&self, v: u64) -> Self::SF {
+        self.0.send(v)
+    }
+    fn try_send(&self, v: u64) -> Result<(), TrySendError<u64>> {
+        self.0.try_send(v)
+    }
+    fn cancel(f: Pin<&mut Self::SF>) -> Option<u64> {
+        // Safety: cancel does not move the future
+        unsafe { Pin::get_unchecked_mut(f) }.cancel()
+    }
+    fn finish(self, last: bool) {
+        if last {
+            self.0.close();
+        }
+    }
+}
+impl<'a, M: RawMutex + Sync, A: RingBuf<Item = u64> + Send> RxOps for BorrowedEnd<'a, M, A> {
+    type RF = futures_intrusive::channel::ChannelReceiveFuture<'a, M, u64>;
+    fn receive(&self) -> Self::RF {
+        self.0.receive()
+    }
+    fn try_receive(&self) -> Result<u64, TryReceiveError> {
+        self.0.try_receive()
+    }
+}
+impl<M: RawMutex + Send + Sync + 'static, A: RingBuf<Item = u64> + Send + 'static> TxOps for futures_intrusive::channel::shared::GenericSender<M, u64, A> {
+    type SF = futures_intrusive::channel::shared::ChannelSendFuture<M, u64>;
+    fn send(&self, v: u64) -> Self::SF {
+        futures_intrusive::channel::shared::GenericSender::send(self, v)
+    }
+    fn try_send(&self, v: u64) -> Result<(), TrySendError<u64>> {
+        futures_intrusive::channel::shared::GenericSender::try_send(self, v)
+    }
+    fn cancel(f: Pin<&mut Self::SF>) -> Option<u64> {
+        // Safety: cancel does not move the future
+        unsafe { Pin::get_unchecked_mut(f) }.cancel()
+    }
+    fn finish(self, _last: bool) {
+        drop(self) // the last sender handle closes the channel
+    }
+}
+impl<M: RawMutex + Send + Sync + 'static, A: RingBuf<Item = u64> + Send + 'static> RxOps for futures_intrusive::channel::shared::GenericReceiver<M, u64, A> {
+    type RF = futures_intrusive::channel::shared::ChannelReceiveFuture<M, u64>;
+    fn receive(&self) -> Self::RF {
+        futures_intrusive::channel::shared::GenericReceiver::receive(self)
+    }
+    fn try_receive(&self) -> Result<u64, TryReceiveError> {
+        futures_intrusive::channel::shared::GenericReceiver::try_receive(self)
+    }
+}
+
 pub fn wl_mpmc<M: RawMutex + Send + Sync + 'static, A: RingBuf<Item = u64> + Send + 'static>(
     seed: u64,
     producers: usize,
     consumers: usize,
     per_producer: usize,
     cap: usize,
+    shared: bool,
     ctx: &mut Ctx,
     st: &mut ConcStats,
 ) -> Option<Violation> {
-    let ch: GenericChannel<M, u64, A> = GenericChannel::with_capacity(cap);
+    if shared {
+        let (tx, rx) = generic_channel::<M, u64, A>(cap);
+        let mut txs = vec![];
+        let mut rxs = vec![];
+        for _ in 1..producers {
+            txs.push(tx.clone());
+        }
+        txs.push(tx);
+        for _ in 0..consumers {
+            rxs.push(rx.clone());
+        }
+        // `rx` stays with the supervisor for inspection only (it never receives)
+        let r = wl_mpmc_inner(seed, txs, rxs, &|v| rx.verif_channel().verif_inspect(v), per_producer, cap, ctx, st);
+        drop(rx);
+        r
+    } else {
+        let ch: GenericChannel<M, u64, A> = GenericChannel::with_capacity(cap);
+        let txs: Vec<BorrowedEnd<M, A>> = (0..producers).map(|_| BorrowedEnd(&ch)).collect();
+        let rxs: Vec<BorrowedEnd<M, A>> = (0..consumers).map(|_| BorrowedEnd(&ch)).collect();
+        wl_mpmc_inner(seed, txs, rxs, &|v| ch.verif_inspect(v), per_producer, cap, ctx, st)
+    }
+}
+
+fn wl_mpmc_inner<TX: TxOps, RX: RxOps>(
+    seed: u64,
+    mut txs: Vec<TX>,
+    mut rxs: Vec<RX>,
+    inspect: &(dyn Fn(&mut dyn FnMut(Visit) -> bool) + Sync),
+    per_producer: usize,
+    cap: usize,
+    ctx: &mut Ctx,
+    st: &mut ConcStats,
+) -> Option<Violation> {
+    let producers = txs.len();
+    let consumers = rxs.len();
     let n = producers + consumers;
     let run = Run::new(n);
     let producers_left = AtomicU64::new(producers as u64);
@@ -393,23 +518,26 @@ pub fn wl_mpmc<M: RawMutex + Send + Sync + 'static, A: RingBuf<Item = u64> + Sen
     let completed = AtomicU64::new(0);
     let mut logs: Vec<Vec<LogEv>> = vec![];
     let mut verdict = Verdict::Finished;
+    // (buffered, parked receiver tasks, parked sender tasks, closed)
     let mut dl = (0u64, 0usize, 0usize, false);
     std::thread::scope(|s| {
         let mut hs = vec![];
         for i in 0..n {
-            let (ch, producers_left, cancelled, completed, run) = (&ch, &producers_left, &cancelled, &completed, run.clone());
+            let (producers_left, cancelled, completed, run) = (&producers_left, &cancelled, &completed, run.clone());
+            let tx = if i < producers { txs.pop() } else { None };
+            let rx = if i >= producers { rxs.pop() } else { None };
             hs.push(s.spawn(move || {
                 enter_worker(&run, i, seed ^ (i as u64 + 1).wrapping_mul(0x9E37_79B9));
                 let mut rng = Rng::new(seed.wrapping_mul(41).wrapping_add(i as u64));
                 let mut lg: Vec<LogEv> = Vec::with_capacity(per_producer * 4 + 8);
-                if i < producers {
-                    // op 0 = send ok, 1 = handed back (cancel / full), 2 = closed error
+                if let Some(tx) = tx {
+                    // op 0 = try_send, 1 = send; res 1 = took effect, 0 = handed back, 2 = closed, 77 = foreign value
                     let mut seq = 0u64;
                     while (seq as usize) < per_producer && !run.abort.load(Relaxed) {
                         let tag = ((i as u64) << 32) | seq;
                         if cap > 0 && rng.below(4) == 0 {
                             let ok = log!(lg, run, i, 0u8, tag, {
-                                match ch.try_send(tag) {
+                                match tx.try_send(tag) {
                                     Ok(()) => (true, 1),
                                     Err(TrySendError::Full(v)) => (false, if v == tag { 0 } else { 77 }),
                                     Err(TrySendError::Closed(v)) => (false, if v == tag { 2 } else { 77 }),
@@ -423,10 +551,10 @@ pub fn wl_mpmc<M: RawMutex + Send + Sync + 'static, A: RingBuf<Item = u64> + Sen
                             continue;
                         }
                         let how = pick_drive(&mut rng);
-                        // a cancelled send future is dropped by `drive`: its value is dropped with it unless it
-                        // was already accepted. To keep the ledger exact, cancelled sends use cancel() explicitly.
+                        // a send that is given up is cancelled explicitly, so that the ledger stays exact:
+                        // cancel() hands the value back unless it has already been taken
                         let ok = log!(lg, run, i, 1u8, tag, {
-                            let mut fut = Box::pin(ch.send(tag));
+                            let mut fut = Box::pin(tx.send(tag));
                             let o = drive_pinned(&run, i, fut.as_mut(), how, 2);
                             match o {
                                 Outcome::Ready(Ok(())) => {
@@ -436,9 +564,7 @@ pub fn wl_mpmc<M: RawMutex + Send + Sync + 'static, A: RingBuf<Item = u64> + Sen
                                 Outcome::Ready(Err(e)) => (false, if e.0 == tag { 2 } else { 77 }),
                                 Outcome::Cancelled | Outcome::Aborted => {
                                     cancelled.fetch_add(1, Relaxed);
-                                    // Safety: cancel does not move the future
-                                    let back = unsafe { Pin::get_unchecked_mut(fut.as_mut()) }.cancel();
-                                    match back {
+                                    match TX::cancel(fut.as_mut()) {
                                         Some(v) => (false, if v == tag { 0 } else { 77 }),
                                         None => (true, 1), // value had already been taken: the send took effect
                                     }
@@ -449,14 +575,13 @@ pub fn wl_mpmc<M: RawMutex + Send + Sync + 'static, A: RingBuf<Item = u64> + Sen
                             seq += 1;
                         }
                     }
-                    if producers_left.fetch_sub(1, AcqRel) == 1 {
-                        log!(lg, run, i, 4u8, 0u64, {
-                            ch.close();
-                            ((), 0)
-                        });
-                    }
-                } else {
-                    // consumers: op 2 = receive (res = tag+1, 0 = none/abandoned).
+                    let last = producers_left.fetch_sub(1, AcqRel) == 1;
+                    log!(lg, run, i, 4u8, last as u64, {
+                        tx.finish(last);
+                        ((), 0)
+                    });
+                } else if let Some(rx) = rx {
+                    // consumers: op 2 = receive, 3 = try_receive (res = tag+1, 0 = none/abandoned).
                     // The first consumer is steady (blocking receives until None). The others are flaky:
                     // a bounded number of attempts with random cancellation, then they leave - possibly
                     // right after abandoning a notified receive, so that nobody is left to rescue a strand.
@@ -474,7 +599,7 @@ pub fn wl_mpmc<M: RawMutex + Send + Sync + 'static, A: RingBuf<Item = u64> + Sen
                         }
                         if !steady && rng.below(5) == 0 {
                             let r = log!(lg, run, i, 3u8, 0u64, {
-                                match ch.try_receive() {
+                                match rx.try_receive() {
                                     Ok(v) => (Some(true), v + 1),
                                     Err(TryReceiveError::Empty) => (Some(false), 0),
                                     Err(TryReceiveError::Closed) => (None, 0),
@@ -489,7 +614,7 @@ pub fn wl_mpmc<M: RawMutex + Send + Sync + 'static, A: RingBuf<Item = u64> + Sen
                         }
                         let how = if steady { Drive::Block } else { pick_drive(&mut rng) };
                         let done = log!(lg, run, i, 2u8, how_code(how), {
-                            let o = drive(&run, i, ch.receive(), how, 1);
+                            let o = drive(&run, i, rx.receive(), how, 1);
                             drive_stats(cancelled, completed, &o);
                             match o {
                                 Outcome::Ready(Some(v)) => (false, v + 1),
@@ -502,6 +627,7 @@ pub fn wl_mpmc<M: RawMutex + Send + Sync + 'static, A: RingBuf<Item = u64> + Sen
                             break;
                         }
                     }
+                    drop(rx);
                 }
                 leave_worker(&run, i);
                 lg
@@ -509,37 +635,39 @@ pub fn wl_mpmc<M: RawMutex + Send + Sync + 'static, A: RingBuf<Item = u64> + Sen
         }
         verdict = supervise(&run, wall_limit());
         if verdict != Verdict::Finished {
-            let mut prim = Default::default();
-            let (mut rq, mut sq) = (0usize, 0usize);
-            ch.verif_inspect(&mut |v| match v {
+            let mut prim = futures_intrusive::verif::PrimInfo::default();
+            inspect(&mut |v| match v {
                 Visit::Prim(p) => {
                     prim = p;
                     true
                 }
-                Visit::Addr(q, _) => {
-                    if q == 0 {
-                        rq += 1
-                    } else {
-                        sq += 1
-                    }
-                    // count only; do not dereference
-                    rq + sq < 64
-                }
+                Visit::Addr(..) => false, // scalar state only
                 _ => true,
             });
-            let p: futures_intrusive::verif::PrimInfo = prim;
-            dl = (p.count, rq, sq, p.flag);
+            // what the parked tasks wait for (1 = receive, 2 = send); a notified but never woken
+            // receiver is parked without being in the queue, so tasks are counted, not queue entries
+            let (mut rp, mut sp) = (0usize, 0usize);
+            for t in &run.tasks {
+                if t.state.load(Acquire) == PARKED {
+                    match t.waiting_for.load(Relaxed) {
+                        1 => rp += 1,
+                        2 => sp += 1,
+                        _ => {}
+                    }
+                }
+            }
+            dl = (prim.count, rp, sp, prim.flag);
             abort_all(&run);
         }
         for h in hs {
-            logs.push(h.join().unwrap_or_default());
+            logs.push(joined(h));
         }
     });
     st.absorb(&run, &logs);
     st.cancelled += cancelled.load(Relaxed);
     st.completed += completed.load(Relaxed);
-    let names = ["try_send", "send", "receive", "try_receive", "close"];
-    queues_empty(ctx, "mpmc channel", &mut |v| ch.verif_inspect(v));
+    let names = ["try_send", "send", "receive", "try_receive", "finish-producer"];
+    queues_empty(ctx, "mpmc channel", &mut |v| inspect(v));
     // ledger
     let mut sent: HashMap<u64, u64> = HashMap::new(); // tag -> ret stamp of the send
     let mut sent_call: HashMap<u64, u64> = HashMap::new();
@@ -573,12 +701,12 @@ pub fn wl_mpmc<M: RawMutex + Send + Sync + 'static, A: RingBuf<Item = u64> + Sen
     let phantom: Vec<u64> = recv.keys().filter(|t| !sent.contains_key(t)).copied().collect();
     ctx.check("C08", "received-values-were-sent-and-not-handed-back", !recv.is_empty(), phantom.is_empty(), || format!("tags received although their send was handed back / never completed: {:?}", phantom));
     if finished {
-        // channel closed after all producers finished and consumers drained to None: nothing may be lost
+        // closed after all producers finished, and the steady consumer drained to None: nothing may be lost
         let lost: Vec<u64> = sent.keys().filter(|t| !recv.contains_key(t)).copied().collect();
-        ctx.check("C08", "every-accepted-value-is-received-before-none", !sent.is_empty(), lost.is_empty(), || format!("tags accepted but never received although consumers drained the closed channel: {:?}", lost));
+        ctx.check("C08", "every-accepted-value-is-received-before-none", !sent.is_empty(), lost.is_empty(), || format!("tags accepted but never received although the steady consumer drained the closed channel: {:?}", lost));
     }
     // C09: per-producer order per consumer, and the queue-linearizability pair condition
-    let mut by_cons: HashMap<(u16, u64), Vec<(u64, u64)>> = HashMap::new(); // (consumer, producer) -> [(ret, seq)]
+    let mut by_cons: HashMap<(u16, u64), Vec<(u64, u64)>> = HashMap::new();
     for (tag, (_, ret, c)) in &recv {
         by_cons.entry((*c, tag >> 32)).or_default().push((*ret, tag & 0xffff_ffff));
     }
@@ -590,9 +718,8 @@ pub fn wl_mpmc<M: RawMutex + Send + Sync + 'static, A: RingBuf<Item = u64> + Sen
         }
     }
     ctx.check("C09", "per-producer-order-survives-every-schedule", !recv.is_empty(), order_bad.is_none(), || order_bad.clone().unwrap());
-    // enq(a) returned before enq(b) was called, but deq(b) returned before deq(a) was called
     let mut pair_bad = None;
-    let tags: Vec<u64> = recv.keys().copied().collect();
+    let tags: Vec<u64> = recv.keys().filter(|t| sent.contains_key(t)).copied().collect();
     if tags.len() <= 400 {
         for a in &tags {
             for b in &tags {
@@ -607,11 +734,11 @@ pub fn wl_mpmc<M: RawMutex + Send + Sync + 'static, A: RingBuf<Item = u64> + Sen
         Verdict::Finished => ctx.check("C10", "producers-and-consumers-with-abandoned-receives-terminate", true, true, String::new),
         Verdict::AllParked => {
             st.deadlock_checks += 1;
-            let (count, rq, sq, closed) = dl;
-            let recv_stuck = rq > 0 && (count > 0 || (cap == 0 && sq > 0) || closed);
-            let send_stuck = sq > 0 && ((cap > 0 && (count as usize) < cap) || closed || (cap == 0 && rq > 0));
+            let (count, rp, sp, closed) = dl;
+            let recv_stuck = rp > 0 && (count > 0 || (cap == 0 && sp > 0) || closed);
+            let send_stuck = sp > 0 && ((cap > 0 && (count as usize) < cap) || closed || (cap == 0 && rp > 0));
             ctx.check("C10", "producers-and-consumers-with-abandoned-receives-terminate", true, !(recv_stuck || send_stuck), || {
-                format!("all unfinished tasks parked with clear tokens: buffer {} of {}, {} receivers and {} senders queued, closed={}: lost wake-up", count, cap, rq, sq, closed)
+                format!("all unfinished tasks parked with clear wake tokens: buffer {} of {}, {} tasks wait to receive, {} wait to send, closed={}: lost wake-up", count, cap, rp, sp, closed)
             });
             if !(recv_stuck || send_stuck) {
                 return Some(Violation { prop: "harness", pred: "all-parked-but-resource-unavailable", detail: format!("{:?}", dl), log: dump(&logs, &names) });
@@ -724,7 +851,7 @@ pub fn wl_event<M: RawMutex + Send + Sync + 'static>(seed: u64, n: usize, rounds
             abort_all(&run);
         }
         for h in hs {
-            logs.push(h.join().unwrap_or_default());
+            logs.push(joined(h));
         }
     });
     st.absorb(&run, &logs);
@@ -752,7 +879,7 @@ pub fn wl_event<M: RawMutex + Send + Sync + 'static>(seed: u64, n: usize, rounds
 }
 
 // ------------------------------------------------------------------ shared handle lifecycle (C11)
-pub fn wl_handles(seed: u64, n: usize, rounds: usize, kind: u8, ctx: &mut Ctx, st: &mut ConcStats) -> Option<Violation> {
+pub fn wl_handles<L: RawMutex + Send + Sync + 'static>(seed: u64, n: usize, rounds: usize, kind: u8, ctx: &mut Ctx, st: &mut ConcStats) -> Option<Violation> {
     // one holder keeps a handle of each side for the whole run and must never observe "closed"
     // while the other threads clone and drop handles (W2 windows with injected delays)
     let run = Run::new(n);
@@ -806,33 +933,37 @@ pub fn wl_handles(seed: u64, n: usize, rounds: usize, kind: u8, ctx: &mut Ctx, s
                 }
                 let _ = supervise(&run, wall_limit());
                 for h in hs {
-                    logs.push(h.join().unwrap_or_default());
+                    logs.push(joined(h));
                 }
             });
         }};
     }
     match kind {
         0 => {
-            let (tx, rx) = generic_channel::<Pl, u64, FixedHeapBuf<u64>>(1);
-            body!(tx, rx, |t: &futures_intrusive::channel::shared::GenericSender<Pl, u64, FixedHeapBuf<u64>>, r: &futures_intrusive::channel::shared::GenericReceiver<Pl, u64, FixedHeapBuf<u64>>| {
-                let a = matches!(t.try_send(1), Err(TrySendError::Closed(_)));
-                let b = matches!(r.try_receive(), Err(TryReceiveError::Closed));
-                a || b
+            let (tx, rx) = generic_channel::<L, u64, FixedHeapBuf<u64>>(1);
+            body!(tx, rx, |t: &futures_intrusive::channel::shared::GenericSender<L, u64, FixedHeapBuf<u64>>, r: &futures_intrusive::channel::shared::GenericReceiver<L, u64, FixedHeapBuf<u64>>| {
+                // the holder is the only one who sends or receives: what it sends it must get back
+                match t.try_send(7) {
+                    Err(TrySendError::Closed(_)) => true,
+                    Err(TrySendError::Full(_)) => matches!(r.try_receive(), Err(TryReceiveError::Closed)),
+                    Ok(()) => !matches!(r.try_receive(), Ok(7)),
+                }
             });
         }
         _ => {
-            let (tx, rx) = generic_state_broadcast_channel::<Pl, u64>();
-            body!(tx, rx, |t: &futures_intrusive::channel::shared::GenericStateSender<Pl, u64>, _r: &futures_intrusive::channel::shared::GenericStateReceiver<Pl, u64>| { t.send(1).is_err() });
+            let (tx, rx) = generic_state_broadcast_channel::<L, u64>();
+            body!(tx, rx, |t: &futures_intrusive::channel::shared::GenericStateSender<L, u64>, _r: &futures_intrusive::channel::shared::GenericStateReceiver<L, u64>| { t.send(1).is_err() });
         }
     }
     st.absorb(&run, &logs);
     let c = saw_closed.load(Relaxed);
-    ctx.check("C11", "never-closed-while-a-handle-of-each-side-is-alive", true, c == 0, || format!("the holder of a sender and a receiver handle observed the channel closed {} times while others only cloned and dropped handles", c));
+    ctx.check("C11", "never-closed-while-a-handle-of-each-side-is-alive", true, c == 0, || format!("the holder of a sender and a receiver handle observed the channel closed (or its own buffered value gone) {} times while others only cloned and dropped handles", c));
+    ctx.check("C08", "value-not-discarded-while-a-receiver-can-still-reach-it", kind == 0, c == 0, || format!("the holder sent a value and could not receive it back {} times although nobody else receives and both sides stay alive", c));
     take_fail(ctx, &logs, &names)
 }
 
 // ------------------------------------------------------------------ oneshot (C12)
-pub fn wl_oneshot(seed: u64, n: usize, broadcast: bool, ctx: &mut Ctx, st: &mut ConcStats) -> Option<Violation> {
+pub fn wl_oneshot<L: RawMutex + Send + Sync + 'static>(seed: u64, n: usize, broadcast: bool, ctx: &mut Ctx, st: &mut ConcStats) -> Option<Violation> {
     let run = Run::new(n);
     let got = AtomicU64::new(0);
     let none = AtomicU64::new(0);
@@ -909,13 +1040,13 @@ pub fn wl_oneshot(seed: u64, n: usize, broadcast: bool, ctx: &mut Ctx, st: &mut 
                     abort_all(&run);
                 }
                 for h in hs {
-                    logs.push(h.join().unwrap_or_default());
+                    logs.push(joined(h));
                 }
             });
         }};
     }
     if broadcast {
-        let (tx, rx) = generic_oneshot_broadcast_channel::<Pl, u64>();
+        let (tx, rx) = generic_oneshot_broadcast_channel::<L, u64>();
         let mut v = vec![];
         for _ in 1..n - 1 {
             v.push(rx.clone());
@@ -924,15 +1055,15 @@ pub fn wl_oneshot(seed: u64, n: usize, broadcast: bool, ctx: &mut Ctx, st: &mut 
         body!(tx, v);
     } else {
         // single consumer flavour: the receivers compete on a borrowed channel
-        let ch = futures_intrusive::channel::GenericOneshotChannel::<Pl, u64>::new();
-        struct R<'a>(&'a futures_intrusive::channel::GenericOneshotChannel<Pl, u64>);
-        impl<'a> R<'a> {
-            fn receive(&self) -> futures_intrusive::channel::ChannelReceiveFuture<'a, Pl, u64> {
+        let ch = futures_intrusive::channel::GenericOneshotChannel::<L, u64>::new();
+        struct R<'a, L2: RawMutex>(&'a futures_intrusive::channel::GenericOneshotChannel<L2, u64>);
+        impl<'a, L2: RawMutex> R<'a, L2> {
+            fn receive(&self) -> futures_intrusive::channel::ChannelReceiveFuture<'a, L2, u64> {
                 self.0.receive()
             }
         }
-        struct T<'a>(&'a futures_intrusive::channel::GenericOneshotChannel<Pl, u64>);
-        impl<'a> T<'a> {
+        struct T<'a, L2: RawMutex>(&'a futures_intrusive::channel::GenericOneshotChannel<L2, u64>);
+        impl<'a, L2: RawMutex> T<'a, L2> {
             fn send(&self, v: u64) -> Result<(), futures_intrusive::channel::ChannelSendError<u64>> {
                 self.0.send(v)
             }
@@ -965,8 +1096,8 @@ pub fn wl_oneshot(seed: u64, n: usize, broadcast: bool, ctx: &mut Ctx, st: &mut 
 }
 
 // ------------------------------------------------------------------ state broadcast (C13)
-pub fn wl_state(seed: u64, n: usize, pubs: u64, ctx: &mut Ctx, st: &mut ConcStats) -> Option<Violation> {
-    let (tx, rx) = generic_state_broadcast_channel::<Pl, u64>();
+pub fn wl_state<L: RawMutex + Send + Sync + 'static>(seed: u64, n: usize, pubs: u64, ctx: &mut Ctx, st: &mut ConcStats) -> Option<Violation> {
+    let (tx, rx) = generic_state_broadcast_channel::<L, u64>();
     let run = Run::new(n);
     let bad = std::sync::Mutex::new(Vec::<String>::new());
     let mut logs: Vec<Vec<LogEv>> = vec![];
@@ -1038,7 +1169,7 @@ pub fn wl_state(seed: u64, n: usize, pubs: u64, ctx: &mut Ctx, st: &mut ConcStat
             abort_all(&run);
         }
         for h in hs {
-            logs.push(h.join().unwrap_or_default());
+            logs.push(joined(h));
         }
     });
     st.absorb(&run, &logs);
@@ -1060,10 +1191,10 @@ pub fn wl_state(seed: u64, n: usize, pubs: u64, ctx: &mut Ctx, st: &mut ConcStat
 }
 
 // ------------------------------------------------------------------ timer (C15)
-pub fn wl_timer(seed: u64, n: usize, rounds: usize, ctx: &mut Ctx, st: &mut ConcStats) -> Option<Violation> {
+pub fn wl_timer<L: RawMutex + Send + Sync + 'static>(seed: u64, n: usize, rounds: usize, ctx: &mut Ctx, st: &mut ConcStats) -> Option<Violation> {
     let clock_owner = crate::util::Leaked::new(MockClock::new());
     let clock: &'static MockClock = clock_owner.get();
-    let svc: GenericTimerService<Pl> = GenericTimerService::new(clock);
+    let svc: GenericTimerService<L> = GenericTimerService::new(clock);
     let run = Run::new(n);
     let early = std::sync::Mutex::new(Vec::<String>::new());
     let workers_left = AtomicU64::new((n - 1) as u64);
@@ -1135,7 +1266,7 @@ pub fn wl_timer(seed: u64, n: usize, rounds: usize, ctx: &mut Ctx, st: &mut Conc
             abort_all(&run);
         }
         for h in hs {
-            logs.push(h.join().unwrap_or_default());
+            logs.push(joined(h));
         }
     });
     st.absorb(&run, &logs);
@@ -1171,17 +1302,354 @@ pub fn wl_timer(seed: u64, n: usize, rounds: usize, ctx: &mut Ctx, st: &mut Conc
     take_fail(ctx, &logs, &names)
 }
 
+
+
+// ------------------------------------------------------------------ mutex hand-off under tight contention (C01/C02/C03)
+/// Three tasks take the mutex through lock futures (blocking), three through try_lock, all in tight
+/// loops without pauses: maximises real overlap of guard drops, try_lock barging and registrations.
+pub fn wl_mutex_handoff<M: RawMutex + Send + Sync + 'static>(seed: u64, iters: usize, fair: bool, ctx: &mut Ctx, st: &mut ConcStats) -> Option<Violation> {
+    let n = 6;
+    let m: GenericMutex<M, u64> = GenericMutex::new(0, fair);
+    let in_cs = AtomicBool::new(false);
+    let overlap = AtomicU64::new(0);
+    let acquired = AtomicU64::new(0);
+    let lockers_left = AtomicU64::new(3);
+    let run = Run::new(n);
+    let mut logs: Vec<Vec<LogEv>> = vec![];
+    let mut verdict = Verdict::Finished;
+    let mut free_at_deadlock = false;
+    std::thread::scope(|s| {
+        let mut hs = vec![];
+        for i in 0..n {
+            let (m, in_cs, overlap, acquired, lockers_left, run) = (&m, &in_cs, &overlap, &acquired, &lockers_left, run.clone());
+            hs.push(s.spawn(move || {
+                enter_worker(&run, i, seed ^ (i as u64 + 1).wrapping_mul(0x9E37_79B9));
+                let crit = |g: &mut u64, hold: u32| {
+                    if in_cs.swap(true, Relaxed) {
+                        overlap.fetch_add(1, Relaxed);
+                    }
+                    *g += 1;
+                    for _ in 0..hold {
+                        std::hint::spin_loop();
+                    }
+                    in_cs.store(false, Relaxed);
+                    acquired.fetch_add(1, Relaxed);
+                };
+                if i < 3 {
+                    for _ in 0..iters {
+                        match drive(&run, i, m.lock(), Drive::Block, 1) {
+                            Outcome::Ready(mut g) => {
+                                crit(&mut *g, 0);
+                                drop(g);
+                            }
+                            _ => break,
+                        }
+                    }
+                    lockers_left.fetch_sub(1, AcqRel);
+                } else {
+                    let mut k = 0u32;
+                    while lockers_left.load(Acquire) > 0 && !run.abort.load(Relaxed) {
+                        if let Some(mut g) = m.try_lock() {
+                            k = k.wrapping_add(1);
+                            crit(&mut *g, (k % 7) * 40);
+                            drop(g);
+                            run.ops.fetch_add(1, Relaxed);
+                        }
+                    }
+                }
+                leave_worker(&run, i);
+                Vec::<LogEv>::new()
+            }));
+        }
+        verdict = supervise(&run, wall_limit());
+        if verdict != Verdict::Finished {
+            free_at_deadlock = !m.is_locked();
+            lockers_left.store(0, Release);
+            abort_all(&run);
+        }
+        for h in hs {
+            logs.push(joined(h));
+        }
+    });
+    st.absorb(&run, &logs);
+    queues_empty(ctx, "mutex (hand-off)", &mut |v| m.verif_inspect(v));
+    let total = acquired.load(Relaxed);
+    let ov = overlap.load(Relaxed);
+    ctx.check("C02", "threads-never-inside-the-critical-section-together", total > 0, ov == 0, || format!("{} overlapping critical sections observed", ov));
+    if let Some(g) = m.try_lock() {
+        let value = *g;
+        ctx.check("C02", "non-atomic-counter-equals-number-of-acquisitions", total > 0, value == total || verdict != Verdict::Finished, || format!("protected counter is {} after {} acquisitions", value, total));
+    }
+    match verdict {
+        Verdict::Finished => ctx.check("C03", "looping-tasks-with-cancellation-terminate", true, true, String::new),
+        Verdict::AllParked => {
+            st.deadlock_checks += 1;
+            ctx.check("C03", "looping-tasks-with-cancellation-terminate", true, !free_at_deadlock, || "all unfinished tasks are parked with clear wake tokens while the mutex is free: lost wake-up".to_string());
+            if !free_at_deadlock {
+                return Some(Violation { prop: "harness", pred: "all-parked-but-resource-unavailable", detail: "mutex still locked while everybody is parked".into(), log: String::new() });
+            }
+        }
+        Verdict::Watchdog => {
+            st.watchdogs += 1;
+            return Some(Violation { prop: "harness", pred: "watchdog", detail: "wall clock watchdog".into(), log: String::new() });
+        }
+    }
+    take_fail(ctx, &logs, &["lock"])
+}
+
+// ------------------------------------------------------------------ is_locked() observers (C02)
+pub fn wl_mutex_observer<M: RawMutex + Send + Sync + 'static>(seed: u64, n: usize, rounds: usize, fair: bool, held: bool, ctx: &mut Ctx, st: &mut ConcStats) -> Option<Violation> {
+    // held = false: no guard is ever alive -> is_locked() must always be false
+    // held = true : the supervisor owns a guard for the whole run -> is_locked() must always be true
+    let m: GenericMutex<M, u64> = GenericMutex::new(0, fair);
+    let guard = if held { Some(m.try_lock().expect("fresh mutex")) } else { None };
+    let run = Run::new(n);
+    let wrong = AtomicU64::new(0);
+    let mut logs: Vec<Vec<LogEv>> = vec![];
+    std::thread::scope(|s| {
+        let mut hs = vec![];
+        for i in 0..n {
+            let (m, wrong, run) = (&m, &wrong, run.clone());
+            hs.push(s.spawn(move || {
+                enter_worker(&run, i, seed ^ (i as u64 + 1).wrapping_mul(0x9E37_79B9));
+                let mut rng = Rng::new(seed.wrapping_mul(67).wrapping_add(i as u64));
+                let mut lg: Vec<LogEv> = Vec::with_capacity(rounds + 2);
+                for _ in 0..rounds {
+                    match rng.below(3) {
+                        0 => {
+                            // create and drop a lock future without polling it (takes the internal lock only)
+                            let f = m.lock();
+                            drop(f);
+                        }
+                        1 if held => {
+                            // register and cancel while the guard is held by the supervisor
+                            let how = if rng.below(2) == 0 { Drive::Once } else { Drive::Abandon(1) };
+                            let _ = drive(&run, i, m.lock(), how, 1);
+                        }
+                        _ => {}
+                    }
+                    log!(lg, run, i, 0u8, 0u64, {
+                        let l = m.is_locked();
+                        if l != held {
+                            wrong.fetch_add(1, Relaxed);
+                        }
+                        ((), l as u64)
+                    });
+                    run.ops.fetch_add(1, Relaxed);
+                }
+                leave_worker(&run, i);
+                lg
+            }));
+        }
+        let v = supervise(&run, wall_limit());
+        if v != Verdict::Finished {
+            abort_all(&run);
+        }
+        for h in hs {
+            logs.push(joined(h));
+        }
+    });
+    drop(guard);
+    st.absorb(&run, &logs);
+    let w = wrong.load(Relaxed);
+    ctx.check("C02", "is_locked-exactly-while-a-guard-is-alive-under-concurrent-observers", true, w == 0, || {
+        format!("is_locked() returned {} {} times while {}", !held, w, if held { "a guard was alive for the whole run" } else { "no guard was ever alive" })
+    });
+    take_fail(ctx, &logs, &["is_locked"])
+}
+
+// ------------------------------------------------------------------ last handles dropped concurrently (C11)
+fn barrier(arrived: &AtomicU64, n: u64) {
+    arrived.fetch_add(1, AcqRel);
+    while arrived.load(Acquire) < n {
+        if cfg!(miri) {
+            std::thread::yield_now();
+        } else {
+            std::hint::spin_loop();
+        }
+    }
+}
+
+pub fn wl_lastdrop<L: RawMutex + Send + Sync + 'static>(seed: u64, n: usize, kind: u8, ctx: &mut Ctx, st: &mut ConcStats) -> Option<Violation> {
+    let run = Run::new(n);
+    let arrived = AtomicU64::new(0);
+    let mut logs: Vec<Vec<LogEv>> = vec![];
+    let names = ["drop-handle", "try_send"];
+    let mut problem: Option<(&'static str, String)> = None;
+    macro_rules! race_drop {
+        ($handles:expr, $extra:expr) => {{
+            let mut handles = $handles;
+            let mut extra_once: Option<Box<dyn Fn(u64) -> u64 + Send>> = $extra;
+            std::thread::scope(|s| {
+                let mut hs = vec![];
+                for i in 0..n {
+                    let (arrived, run) = (&arrived, run.clone());
+                    let extra = if i == 0 { extra_once.take() } else { None };
+                    // the thread that keeps sending holds no handle of the side that is being dropped
+                    let h = if extra.is_some() { None } else { handles.pop() };
+                    hs.push(s.spawn(move || {
+                        enter_worker(&run, i, seed ^ (i as u64 + 1).wrapping_mul(0x9E37_79B9));
+                        let mut lg: Vec<LogEv> = Vec::with_capacity(40);
+                        barrier(arrived, n as u64);
+                        for _ in 0..(seed.wrapping_mul(i as u64 + 3) % 4) {
+                            if extra.is_none() {
+                                std::hint::spin_loop();
+                            }
+                        }
+                        if let Some(f) = extra {
+                            for k in 0..400u64 {
+                                let r = f(k);
+                                if k < 30 {
+                                    log!(lg, run, i, 1u8, k, { ((), r) });
+                                }
+                            }
+                        }
+                        log!(lg, run, i, 0u8, 0u64, {
+                            drop(h);
+                            ((), 0)
+                        });
+                        run.ops.fetch_add(1, Relaxed);
+                        leave_worker(&run, i);
+                        lg
+                    }));
+                }
+                let _ = supervise(&run, wall_limit());
+                for h in hs {
+                    logs.push(joined(h));
+                }
+            });
+        }};
+    }
+    match kind {
+        0 => {
+            // the last mpmc senders are dropped at the same moment: the channel must end up closed
+            let (tx, rx) = generic_channel::<L, u64, FixedHeapBuf<u64>>(1);
+            let mut v = vec![];
+            for _ in 1..n {
+                v.push(tx.clone());
+            }
+            v.push(tx);
+            race_drop!(v, None::<Box<dyn Fn(u64) -> u64 + Send>>);
+            if !matches!(rx.try_receive(), Err(TryReceiveError::Closed)) {
+                problem = Some(("closed-after-the-last-sender-handle-is-dropped", "all sender handles were dropped (concurrently) but the channel is still open".into()));
+            }
+        }
+        1 => {
+            // the last mpmc receivers are dropped while a sender keeps calling try_send: afterwards the
+            // channel is closed and nothing is left in the buffer
+            let (tx, rx) = generic_channel::<L, u64, FixedHeapBuf<u64>>(2);
+            let mut v = vec![];
+            // n - 1 receiver handles for the threads 1..n; thread 0 only sends
+            for _ in 2..n {
+                v.push(rx.clone());
+            }
+            v.push(rx);
+            let txc = tx.clone();
+            race_drop!(v, Some(Box::new(move |k: u64| txc.try_send(k).is_ok() as u64) as Box<dyn Fn(u64) -> u64 + Send>));
+            let mut prim = futures_intrusive::verif::PrimInfo::default();
+            tx.verif_channel().verif_inspect(&mut |x| match x {
+                Visit::Prim(p) => {
+                    prim = p;
+                    true
+                }
+                Visit::Addr(..) => false,
+                _ => true,
+            });
+            if !prim.flag {
+                problem = Some(("closed-after-the-last-receiver-handle-is-dropped", "all receiver handles were dropped (concurrently) but the channel is still open".into()));
+            } else if prim.count != 0 {
+                problem = Some(("last-receiver-drop-discards-buffered-values-immediately", format!("{} values are still buffered after the last receiver handle was dropped (a concurrent try_send slipped in)", prim.count)));
+            }
+        }
+        2 => {
+            let (tx, rx) = generic_state_broadcast_channel::<L, u64>();
+            let mut v = vec![];
+            for _ in 1..n {
+                v.push(tx.clone());
+            }
+            v.push(tx);
+            race_drop!(v, None::<Box<dyn Fn(u64) -> u64 + Send>>);
+            let mut closed = false;
+            rx.verif_channel().verif_inspect(&mut |x| match x {
+                Visit::Prim(p) => {
+                    closed = p.flag;
+                    true
+                }
+                Visit::Addr(..) => false,
+                _ => true,
+            });
+            if !closed {
+                problem = Some(("closed-after-the-last-sender-handle-is-dropped", "all state-broadcast sender handles were dropped (concurrently) but the channel is still open".into()));
+            }
+        }
+        _ => {
+            let (tx, rx) = generic_state_broadcast_channel::<L, u64>();
+            let mut v = vec![];
+            for _ in 1..n {
+                v.push(rx.clone());
+            }
+            v.push(rx);
+            race_drop!(v, None::<Box<dyn Fn(u64) -> u64 + Send>>);
+            if tx.send(1).is_ok() {
+                problem = Some(("closed-after-the-last-receiver-handle-is-dropped", "all state-broadcast receiver handles were dropped (concurrently) but send() still succeeds".into()));
+            }
+        }
+    }
+    st.absorb(&run, &logs);
+    ctx.check("C11", "closed-exactly-when-the-last-handle-of-a-side-is-dropped-concurrently", true, problem.is_none(), || {
+        let (p, d) = problem.clone().unwrap();
+        format!("{}: {}", p, d)
+    });
+    take_fail(ctx, &logs, &names)
+}
+
 // ------------------------------------------------------------------ dispatcher
 pub fn run_workload(name: &str, seed: u64, ctx: &mut Ctx, st: &mut ConcStats) -> Option<Violation> {
+    crate::conc::WORKER_PANICKED.store(false, Relaxed);
+    WORKER_PANICS.lock().unwrap().clear();
+    let r = run_workload_inner(name, seed, ctx, st);
+    let panics = std::mem::take(&mut *WORKER_PANICS.lock().unwrap());
+    if !panics.is_empty() {
+        // a panic inside a crate call on a contract-respecting threaded history: everything else that
+        // happened in this run (e.g. peers left parked forever) is a consequence of it
+        ctx.fails.clear();
+        ctx.check("C01", "no-panic-on-contract-respecting-history", true, false, String::new);
+        ctx.fails.clear();
+        return Some(Violation { prop: "C01", pred: "no-panic-on-contract-respecting-history", detail: format!("worker thread panicked: {}", panics.join(" | ")), log: r.map(|v| v.log).unwrap_or_default() });
+    }
+    r
+}
+
+fn run_workload_inner(name: &str, seed: u64, ctx: &mut Ctx, st: &mut ConcStats) -> Option<Violation> {
     let mut rng = Rng::new(seed ^ crate::util::hash_str(name));
     let small = cfg!(miri);
     let n = if small { 3 } else { 3 + rng.below(4) };
     let rounds = if small { 4 } else if rng.below(2) == 0 { 2 + rng.below(5) } else { 4 + rng.below(20) };
     let fair = rng.below(2) == 0;
-    let spin = rng.below(3) == 0;
+    let spin = rng.below(2) == 0;
+    // every now and then: few long runs with many threads hammering without pauses (true overlap)
+    let hammer = std::env::var_os("FIV_HAMMER").is_some();
+    let (n, rounds) = if !small && (hammer || rng.below(12) == 0) { (6, 1500) } else { (n, rounds) };
+    let fair = if hammer { seed % 2 == 0 } else { fair };
     ctx.cur_fp = seed;
     ctx.cur_ev = Ev::new(0, n as u8, fair as u8);
     match name {
+        "mutex" if !small && (hammer || rng.below(8) == 0) => {
+            let it = 300 + rng.below(500);
+            if spin {
+                wl_mutex_handoff::<Spin>(seed, it, fair, ctx, st)
+            } else {
+                wl_mutex_handoff::<Pl>(seed, it, fair, ctx, st)
+            }
+        }
+        "mutex" if rng.below(5) == 0 => {
+            let (r, held) = (if small { 6 } else { 30 + rng.below(100) }, rng.below(2) == 0);
+            if spin {
+                wl_mutex_observer::<Spin>(seed, n, r, fair, held, ctx, st)
+            } else {
+                wl_mutex_observer::<Pl>(seed, n, r, fair, held, ctx, st)
+            }
+        }
         "mutex" => {
             if spin {
                 wl_mutex::<Spin>(seed, n, rounds, fair, ctx, st)
@@ -1201,18 +1669,41 @@ pub fn run_workload(name: &str, seed: u64, ctx: &mut Ctx, st: &mut ConcStats) ->
             let p = 1 + rng.below(if small { 2 } else { 3 });
             let c = 1 + rng.below(if small { 2 } else { 3 });
             let per = if small { 3 } else { 3 + rng.below(12) };
-            match rng.below(4) {
-                0 => wl_mpmc::<Pl, ArrayBuf<u64, [u64; 0]>>(seed, p, c, per, 0, ctx, st),
-                1 => wl_mpmc::<Pl, ArrayBuf<u64, [u64; 1]>>(seed, p, c, per, 1, ctx, st),
-                2 => wl_mpmc::<Spin, ArrayBuf<u64, [u64; 2]>>(seed, p, c, per, 2, ctx, st),
-                _ => wl_mpmc::<Pl, FixedHeapBuf<u64>>(seed, p, c, per, 2, ctx, st),
+            let shared = rng.below(2) == 0;
+            match rng.below(5) {
+                0 if spin => wl_mpmc::<Spin, ArrayBuf<u64, [u64; 0]>>(seed, p, c, per, 0, shared, ctx, st),
+                1 if spin => wl_mpmc::<Spin, ArrayBuf<u64, [u64; 1]>>(seed, p, c, per, 1, shared, ctx, st),
+                0 => wl_mpmc::<Pl, ArrayBuf<u64, [u64; 0]>>(seed, p, c, per, 0, shared, ctx, st),
+                1 => wl_mpmc::<Pl, ArrayBuf<u64, [u64; 1]>>(seed, p, c, per, 1, shared, ctx, st),
+                2 => wl_mpmc::<Spin, ArrayBuf<u64, [u64; 2]>>(seed, p, c, per, 2, shared, ctx, st),
+                3 => wl_mpmc::<Pl, futures_intrusive::buffer::GrowingHeapBuf<u64>>(seed, p, c, per, rng.below(3), shared, ctx, st),
+                _ => wl_mpmc::<Pl, FixedHeapBuf<u64>>(seed, p, c, per, 2, shared, ctx, st),
             }
         }
+        "event" if spin => wl_event::<Spin>(seed, n, rounds.max(6), ctx, st),
         "event" => wl_event::<Pl>(seed, n, rounds.max(6), ctx, st),
-        "handles" => wl_handles(seed, n, if small { 6 } else { 40 }, rng.below(2) as u8, ctx, st),
-        "oneshot" => wl_oneshot(seed, n.max(3), rng.below(2) == 0, ctx, st),
-        "state" => wl_state(seed, n, if small { 3 } else { 3 + rng.below(10) as u64 }, ctx, st),
-        "timer" => wl_timer(seed, n, if small { 3 } else { rounds }, ctx, st),
+        "handles" if rng.below(2) == 0 => {
+            let k = rng.below(4) as u8;
+            if spin {
+                wl_lastdrop::<Spin>(seed, n.min(4), k, ctx, st)
+            } else {
+                wl_lastdrop::<Pl>(seed, n.min(4), k, ctx, st)
+            }
+        }
+        "handles" => {
+            let (r, k) = (if small { 6 } else { 40 }, rng.below(2) as u8);
+            if spin {
+                wl_handles::<Spin>(seed, n, r, k, ctx, st)
+            } else {
+                wl_handles::<Pl>(seed, n, r, k, ctx, st)
+            }
+        }
+        "oneshot" if spin => wl_oneshot::<Spin>(seed, n.max(3), rng.below(2) == 0, ctx, st),
+        "oneshot" => wl_oneshot::<Pl>(seed, n.max(3), rng.below(2) == 0, ctx, st),
+        "state" if spin => wl_state::<Spin>(seed, n, if small { 3 } else { 3 + rng.below(10) as u64 }, ctx, st),
+        "state" => wl_state::<Pl>(seed, n, if small { 3 } else { 3 + rng.below(10) as u64 }, ctx, st),
+        "timer" if spin => wl_timer::<Spin>(seed, n, if small { 3 } else { rounds }, ctx, st),
+        "timer" => wl_timer::<Pl>(seed, n, if small { 3 } else { rounds }, ctx, st),
         _ => panic!("unknown workload {}", name),
     }
 }
